@@ -12,7 +12,7 @@ parameterisations - the full product, nothing sampled:
           x {no seed, a seed file holding half of the source, the same seed on stdin, the output path itself named as seed (refusal cells only)}
           (+ -vv on every 4th cell)
   compress  {empty, 40-byte, 3000-byte source} x {file, stdin input} x {fixed, rollsum, default chunker}
-          x {none, brotli} x {output absent, empty, shorter junk, longer junk, the same archive already there, absent with a stale temp file of an interrupted run}
+          x {none, brotli} x {output absent, empty, shorter junk, longer junk, the same archive already there, absent with a stale temp file of an interrupted run, there together with such a temp file}
           x {--force-create or not} (+ -vv on every 4th cell)
 
 One run per cell in a private directory that is snapshotted before and after. A small model of
@@ -54,7 +54,9 @@ FACETS = {
     "C07": ("grid-requests-differ-from-maximal-runs",),
     "C16": ("path-other-than-output-touched",),
     "C12": ("archive-depends-on-history-input-kind-or-verbosity", "valid-compress-failed"),
-    "C01": ("compress-clone-round-trip-differs", "round-trip-clone-failed"),
+    # every archive of the grid was written by the binary's own compress: each clone cell is a round trip as well
+    "C01": ("compress-clone-round-trip-differs", "round-trip-clone-failed", "valid-clone-failed", "success-with-wrong-output",
+            "valid-in-place-clone-failed", "in-place-success-with-wrong-output"),
 }
 
 
@@ -324,7 +326,7 @@ C_CHUNKERS = [("fixed64", ["--fixed-size", "64B"]),
               ("rollsum", ["--hash-chunking", "RollSum", "--rolling-window-size", "16B", "--min-chunk-size", "32B", "--avg-chunk-size", "64B", "--max-chunk-size", "256B"]),
               ("default", [])]
 C_COMPS = [("none", ["--compression", "none"]), ("brotli", ["--compression", "brotli", "--compression-level", "4"])]
-C_STATES = ["absent", "empty", "shorter", "longer", "same", "stale-temp"]
+C_STATES = ["absent", "empty", "shorter", "longer", "same", "stale-temp", "same+stale-temp"]
 
 
 def compress_cells():
@@ -357,8 +359,8 @@ def run_compress_cell(bita, root, idx, cell, refs, viol):
     d = os.path.join(root, f"z{idx}")
     os.makedirs(d)
     out = os.path.join(d, "out.cba")
-    prior = {"absent": None, "empty": b"", "shorter": b"old" * 9, "longer": ref + b"an older and longer file " * 400, "same": ref, "stale-temp": None}[cell["state"]]
-    if cell["state"] == "stale-temp":
+    prior = {"absent": None, "empty": b"", "shorter": b"old" * 9, "longer": ref + b"an older and longer file " * 400, "same": ref, "stale-temp": None, "same+stale-temp": ref}[cell["state"]]
+    if cell["state"].endswith("stale-temp"):
         # the temp file of an earlier, interrupted run of the same command is still there (larger than this run's)
         with open(os.path.join(d, "out..tmp"), "wb") as f:
             f.write(b"stale chunk data " * 4096)
@@ -380,7 +382,7 @@ def run_compress_cell(bita, root, idx, cell, refs, viol):
     changes = diff(before, after)
     detail = dict(cell, source_name=sname, exit=r.returncode, changes=changes[:6], stderr=r.stderr.decode(errors="replace")[-300:])
     # (the command's own temp file is used and removed: a stale one disappears with it)
-    if [c for c in changes if c[0] != "out.cba" and not (cell["state"] == "stale-temp" and c == ("out..tmp", "removed"))]:
+    if [c for c in changes if c[0] != "out.cba" and not (cell["state"].endswith("stale-temp") and not (prior is not None and not cell["force"]) and c == ("out..tmp", "removed"))]:
         viol.add("path-other-than-output-touched", detail)
     refuse = prior is not None and not cell["force"]
     if refuse:
